@@ -209,7 +209,7 @@ def _same_model(spellings):
 
 
 def run(report, findings):
-    from ..contracts import parser_c, scanner_c, resolver_c, algebra_c   # noqa: F401
+    from ..contracts import parser_c, scanner_c, resolver_c, algebra_c, variable_c   # noqa: F401
     tier = report.tier
     # ---- proof tier: every scanner and parser function against the grammar contract
     checklib.run_proofs(report, "C01", [("vf.contracts.scanner_c", scanner_c.FUNCTIONS), ("vf.contracts.parser_c", parser_c.FUNCTIONS),
@@ -217,7 +217,9 @@ def run(report, findings):
                                         ("vf.contracts.lemmas_c", ["vf.proplemmas.c01.scan_then_parse"]),
                                         # redundant parentheses: both tree walkers return for a Grouping what they return for its content
                                         ("vf.contracts.resolver_c", ["formulae.terms.call_resolver.CallResolver.visitGroupingExpr"]),
-                                        ("vf.contracts.algebra_c", ["formulae.resolver.Resolver.visitGroupingExpr"])])
+                                        ("vf.contracts.algebra_c", ["formulae.resolver.Resolver.visitGroupingExpr"]),
+                                        # ... and parentheses that are NOT redundant make a different call: identity is the lazy call tree
+                                        ("vf.contracts.variable_c", ["formulae.terms.call.Call.__eq__", "formulae.terms.call.Call.__hash__"])])
     # ---- bounded tier: exhaustive strings over the token alphabet
     n_max = 4 if tier == "quick" else 5
     tasks = []
